@@ -75,6 +75,9 @@ def symbolic(world, replace_invert=True, extra=None):
         mod.__dict__[name] = val
 
     jax_stub = _Stub(numpy=S, random=_Stub(normal=_random_normal), lax=_lax_stub(), scipy=_Stub())
+    la = mods.get("utils.linalg")
+    if la is not None and not isinstance(la, Exception):
+        setg(la, "jsc", _Stub(linalg=_Stub(cho_factor=_cho_factor, cho_solve=_cho_solve)))
     for n, m in mods.items():
         if isinstance(m, Exception):
             continue
@@ -156,3 +159,29 @@ def _binom_contract(k, i):
     if isinstance(i, S.Stack):
         return S.Stack([one(k, r) for r in i.rows])
     return one(k, i)
+
+
+def _cho_factor(A, lower=False):
+    """assumed contract of jax.scipy.linalg.cho_factor for symmetric positive definite A: a triangular factor C with
+    C'C = A (upper, the default) -- represented by the Cholesky atom; returns (C, lower)"""
+    from . import shim as S, matrices as MX
+    S.W.count("cho_factor")
+    return (MX.cholesky_contract(A), lower)
+
+
+def _cho_solve(c_and_lower, B):
+    """assumed contract of cho_solve: the solution X of A X = B for the factorised A (= Inv[A] B)"""
+    from . import shim as S, matrices as MX, kernel as K
+    S.W.count("cho_solve")
+    chol = c_and_lower[0]
+    reg = S.W.__dict__.get("chol_registry", {})
+    A = None
+    for rec in reg.values():
+        if rec["name"] in K.atoms_of(chol.expr):
+            A = rec["X"]
+    if A is None:
+        raise S.ShimUnsupported("cho_solve with an unknown factor")
+    Ainv = MX.inverse_of(A)
+    n = B.ndim
+    letters = "abcdefgh"[: n - 2]
+    return S.einsum(f"{letters}ij,{letters}jk->{letters}ik", Ainv, B)
